@@ -68,17 +68,29 @@ async def _snapshot_resume(spec_fn, seed):
     handler = wf.run()
     consumer = asyncio.ensure_future(_drain(handler))
     nsteps = drv.randint(0, spec["count_n"] + 1)
+    peek = random.Random(seed + 3)     # (earlier snapshots of the same running context, taken and thrown away)
     for _ in range(nsteps):
         await vloop.settle()
         if handler._result_task.done():
             break
+        if peek.random() < 0.5:
+            try:
+                handler.ctx.to_dict()
+            except Exception:  # noqa: BLE001
+                pass
         if rec.waiting:
             rec.open(drv.choice(rec.waiting))
     await vloop.settle()
     if handler._result_task.done():
         await asyncio.gather(consumer, return_exceptions=True)
         return dict(snapshot=False)
-    d = json.loads(json.dumps(handler.ctx.to_dict()))
+    try:
+        d = json.loads(json.dumps(handler.ctx.to_dict()))
+    except Exception as ex:  # noqa: BLE001
+        await handler.cancel_run()
+        await vloop.settle()
+        await asyncio.gather(consumer, return_exceptions=True)
+        return dict(snapshot=False, snapshot_error="ctx.to_dict() of the running context raised %r after %d scheduler steps" % (ex, nsteps))
     in_flight = {(r["step"], r["i"]): r["retry"] for r in rec.log if r["kind"] == "enter"}
     done_inv = {(r["step"], r["inv"]) for r in rec.log if r["kind"] == "exit"}
     running = {}
@@ -131,6 +143,9 @@ def run(ctx):
             if "quiescent" not in str(ex):
                 raise
             fails.append(dict(seed=seed, why="livelock: %s" % ex))
+            continue
+        if r.get("snapshot_error"):
+            fails.append(dict(seed=seed, why=r["snapshot_error"]))
             continue
         if not r.get("snapshot"):
             continue
